@@ -126,6 +126,8 @@ def hex_blocks(rng: random.Random, w: int, sizes: List[int], ntrees: int, full: 
         add("ptr_add", "hex.ptr_sub {v0}, {c}", [P()], c=c, js={"c": -c})
     a, b = two()
     add("ptr_index", "hex.ptr_index {v0}, {v1}, {v2}", [a, b, "i1"], n=nq)
+    # the same call with the destination being the pointer itself (p = &p[i]): the documentation sets no restriction on it
+    add("ptr_index", "hex.ptr_index {v0}, {v1}, {v2}", [a, a, "i1"], n=nq, name="hex.ptr_index[dst=ptr]")
     for m, nm in ((0, "hex"), (1, "byte")):
         add("ptr_rd", f"hex.read_{nm} {{v0}}, {{v1}}", [D(), P(), "buf"], n=1, m=m, name=f"hex.read_{nm}(2)")
         add("ptr_rd", f"hex.read_{nm}_and_inc {{v0}}, {{v1}}", [D(), P(), "buf"], n=1, m=m, sh=1)
